@@ -14,7 +14,12 @@ def sselectFor (filters : List (String × Filter)) (t : TxnAttrs) (p : Phase) (c
     match filters.find? (·.1 == f.name) with
     | some (_, fl) => fl.qualifies t p
     | none => true
-  { start := c.start.filter ok, user := c.user.filter ok, finish := c.finish.filter ok }
+  let wild := fun (f : SFlow) =>
+    match filters.find? (·.1 == f.name) with
+    | some (_, fl) => fl.url == "*"
+    | none => false
+  let arrange := fun (l : List SFlow) => (l.filter ok).filter wild ++ (l.filter ok).filter (!wild ·)
+  { start := arrange c.start, user := arrange c.user, finish := arrange c.finish }
 
 /-- request transaction: `c` = flows of the request phase, `c'` = flows of the early-response phase -/
 def stxnReq2 (c c' : SCfg) (o : Oracle) (fuel : Nat) : STxn :=
